@@ -16,6 +16,10 @@ impl VNft {
     pub fn mint(e: &Env, to: Address) -> u32 {
         NonFungibleVotes::sequential_mint(e, &to)
     }
+    /// explicit-id mint of the votes flavour (ids from 1 000 000 up never meet the sequential ones here)
+    pub fn mint_id(e: &Env, to: Address, id: u32) {
+        NonFungibleVotes::mint(e, &to, id)
+    }
     pub fn voting_units(e: &Env, a: Address) -> u128 {
         votes::get_voting_units(e, &a)
     }
@@ -32,6 +36,8 @@ impl Votes for VNft {}
 #[derive(Clone, Debug, Serialize, Deserialize)]
 pub enum Step {
     Mint { to: usize },
+    /// NonFungibleVotes::mint with an explicit id (1 000 000 + id); skipped if that id exists
+    MintId { to: usize, id: u32 },
     Transfer { from: usize, to: usize, id: u32 },
     Burn { from: usize, id: u32 },
     /// operator approval (for all tokens of `owner`), valid up to the host maximum
@@ -55,6 +61,9 @@ impl Model {
         match *s {
             Step::Advance { n } => { self.now += n; true }
             Step::Mint { to } => { self.owner.insert(self.next, to); self.next += 1; true }
+            // an explicit mint of an id that exists is never submitted (the library leaves the uniqueness of explicit ids to the
+            // integrator): the step is skipped
+            Step::MintId { to, id } => { if !self.owner.contains_key(&(1_000_000 + id)) { self.owner.insert(1_000_000 + id, to); } true }
             Step::Transfer { from, to, id } => { if self.owner.get(&id) != Some(&from) { return false; } self.owner.insert(id, to); true }
             Step::Burn { from, id } => { if self.owner.get(&id) != Some(&from) { return false; } self.owner.remove(&id); true }
             Step::ApproveAll { owner, operator } => { self.ops.insert((owner, operator)); true }
@@ -93,7 +102,8 @@ impl Check for NftVotes {
         for _ in 0..nsteps {
             let ids: std::vec::Vec<u32> = m.owner.keys().cloned().collect();
             let s = match rng.below(100) {
-                0..=24 => Step::Mint { to: rng.below(n) as usize },
+                0..=19 => Step::Mint { to: rng.below(n) as usize },
+                20..=24 => Step::MintId { to: rng.below(n) as usize, id: rng.below(6) as u32 },
                 25..=49 => { let id = if ids.is_empty() || rng.chance(10) { rng.below(m.next as u64 + 2) as u32 } else { *rng.pick(&ids) }; let from = *m.owner.get(&id).unwrap_or(&0); Step::Transfer { from: if rng.chance(92) { from } else { rng.below(n) as usize }, to: if rng.chance(10) { from } else { rng.below(n) as usize }, id } }
                 50..=59 => { let id = if ids.is_empty() || rng.chance(10) { rng.below(m.next as u64 + 2) as u32 } else { *rng.pick(&ids) }; Step::Burn { from: *m.owner.get(&id).unwrap_or(&0), id } }
                 60..=64 => Step::ApproveAll { owner: rng.below(n) as usize, operator: rng.below(n) as usize },
@@ -129,6 +139,10 @@ impl Check for NftVotes {
             let (kind, got) = match s {
                 Step::Advance { n } => { m.record(cfg.actors); w.advance(*n); st.ledgers += *n as u64; st.hit("clock.advance"); if *n > 100_000 { st.hit("clock.jump"); } ("advance", true) }
                 Step::Mint { to } => { w.set_auth(&[]); ("mint", c.try_mint(&a(*to)).is_ok()) }
+                Step::MintId { to, id } => {
+                    w.set_auth(&[]);
+                    if m.owner.contains_key(&(1_000_000 + id)) { ("mint_id_skipped", true) } else { ("mint_id", c.try_mint_id(&a(*to), &(1_000_000 + id)).is_ok()) }
+                }
                 Step::Transfer { from, to, id: t } => { w.set_auth(&[(*from, Inv::new(&id, "transfer", (a(*from), a(*to), *t).into_val(e)))]); ("transfer", c.try_transfer(&a(*from), &a(*to), t).is_ok()) }
                 Step::Burn { from, id: t } => { w.set_auth(&[(*from, Inv::new(&id, "burn", (a(*from), *t).into_val(e)))]); ("burn", c.try_burn(&a(*from), t).is_ok()) }
                 Step::ApproveAll { owner, operator } => { let live = e.ledger().max_live_until_ledger(); w.set_auth(&[(*owner, Inv::new(&id, "approve_for_all", (a(*owner), a(*operator), live).into_val(e)))]); ("approve_for_all", c.try_approve_for_all(&a(*owner), &a(*operator), &live).is_ok()) }
